@@ -888,9 +888,26 @@ func runDurTorn(c *Ctx, r *RuleRun) {
 					continue
 				}
 				bad := false
+				var preClassified []*ssa.Call
 				for _, st := range starts {
 					// include the start instruction itself
 					if classify.Instr(st) {
+						continue
+					}
+					// classified before it was tested: `if err := read(); isTornTail(err) { … } else if err != nil { return err }`
+					if boolFactIs(st, func(v ssa.Value) bool {
+						cl, isCall := v.(*ssa.Call)
+						if !isCall || !classify.Instr(cl) {
+							return false
+						}
+						for _, a := range cl.Call.Args {
+							if a == ev {
+								preClassified = append(preClassified, cl)
+								return true
+							}
+						}
+						return false
+					}, false) {
 						continue
 					}
 					q := PathQuery{P: p, Fn: f, Starts: []ssa.Instruction{st}, Avoid: classify.Instr, Target: func(i ssa.Instruction) bool {
@@ -935,6 +952,11 @@ func runDurTorn(c *Ctx, r *RuleRun) {
 							knowsUEOF = true
 						}
 						if ci, ok := st.(*ssa.Call); ok && p.SiteMayReach(ci, isUEOF) {
+							knowsUEOF = true
+						}
+					}
+					for _, cl := range preClassified {
+						if p.SiteMayReach(cl, isUEOF) {
 							knowsUEOF = true
 						}
 					}
